@@ -1217,7 +1217,68 @@ def gen_c12(repo):
     out += one('Invert', 'invertEval', 1, '`Invert.eval` (`~col`) on the value of its operand')
     out += one('IsNull', 'isNullEval', 1, '`IsNull.eval`')
     out += one('IsNotNull', 'isNotNullEval', 1, '`IsNotNull.eval`')
-    return 'pysparkling/sql/expressions/operators.py (And.eval, Or.eval, Invert.eval, IsNull.eval, IsNotNull.eval)', out
+    out += int_operation(tree, 'Mod', 'modInt', '`Mod.unsafe_operation` on two Python ints (`none` = the SQL null it returns)')
+    return ('pysparkling/sql/expressions/operators.py (And.eval, Or.eval, Invert.eval, IsNull.eval, IsNotNull.eval, '
+            'Mod.unsafe_operation on ints)'), out
+
+
+def int_operation(tree, clsname, leanname, doc):
+    """`unsafe_operation(self, value1, value2)` of a binary operator, for operands that are Python ints: `if`/`return`/assignments over
+    `abs`, `%`, unary minus, comparisons with constants, conditional expressions. A branch guarded by `isinstance(.., float)` (alone
+    or in an `or`) is the float case and is skipped; `return None` is the null result."""
+    cls = find_class(tree, clsname)
+    fn = [n for n in cls.body if isinstance(n, ast.FunctionDef) and n.name == 'unsafe_operation']
+    if len(fn) != 1 or [a.arg for a in fn[0].args.args] != ['self', 'value1', 'value2']:
+        raise NotTranslatable('%s.unsafe_operation' % clsname)
+
+    def is_float_test(e):
+        if isinstance(e, ast.BoolOp) and isinstance(e.op, ast.Or):
+            return all(is_float_test(v) for v in e.values)
+        return isinstance(e, ast.Call) and ast.unparse(e.func) == 'isinstance' and len(e.args) == 2 and ast.unparse(e.args[1]) == 'float'
+
+    def ex(e, env):
+        if isinstance(e, ast.Name) and e.id in env:
+            return env[e.id]
+        if isinstance(e, ast.Constant) and isinstance(e.value, int) and not isinstance(e.value, bool):
+            return '(%d : Int)' % e.value
+        if isinstance(e, ast.Call) and ast.unparse(e.func) == 'abs' and len(e.args) == 1:
+            return '((Int.natAbs %s : Nat) : Int)' % ex(e.args[0], env)
+        if isinstance(e, ast.UnaryOp) and isinstance(e.op, ast.USub):
+            return '(-%s)' % ex(e.operand, env)
+        if isinstance(e, ast.BinOp) and isinstance(e.op, ast.Mod):
+            return '(Int.fmod %s %s)' % (ex(e.left, env), ex(e.right, env))        # Python's % is the floor remainder
+        if isinstance(e, ast.IfExp):
+            return '(if %s then %s else %s)' % (cond(e.test, env), ex(e.body, env), ex(e.orelse, env))
+        raise NotTranslatable('int expression ' + ast.unparse(e)[:60])
+
+    def cond(e, env):
+        ops = {ast.Lt: '<', ast.LtE: '≤', ast.Gt: '>', ast.GtE: '≥', ast.Eq: '=', ast.NotEq: '≠'}
+        if isinstance(e, ast.Compare) and len(e.ops) == 1 and type(e.ops[0]) in ops:
+            return '(%s %s %s)' % (ex(e.left, env), ops[type(e.ops[0])], ex(e.comparators[0], env))
+        raise NotTranslatable('int condition ' + ast.unparse(e)[:60])
+
+    def block(stmts, env, ind):
+        if not stmts:
+            raise NotTranslatable('%s.unsafe_operation falls off its end' % clsname)
+        st, rest = stmts[0], stmts[1:]
+        pad = ' ' * ind
+        if isinstance(st, ast.Expr) and isinstance(st.value, ast.Constant):
+            return block(rest, env, ind)
+        if isinstance(st, ast.Return):
+            if st.value is None or (isinstance(st.value, ast.Constant) and st.value.value is None):
+                return 'none'
+            return '(some %s)' % ex(st.value, env)
+        if isinstance(st, ast.If) and not st.orelse and is_float_test(st.test):
+            return block(rest, env, ind)                   # the float case: not for ints
+        if isinstance(st, ast.If) and not st.orelse:
+            return 'if %s then\n%s  %s\n%selse\n%s  %s' % (cond(st.test, env), pad, block(list(st.body), env, ind + 2), pad, pad,
+                                                          block(rest, env, ind + 2))
+        if isinstance(st, ast.Assign) and len(st.targets) == 1 and isinstance(st.targets[0], ast.Name):
+            nm = st.targets[0].id + '_'
+            return 'let %s := %s\n%s%s' % (nm, ex(st.value, env), pad, block(rest, dict(env, **{st.targets[0].id: nm}), ind))
+        raise NotTranslatable('statement in %s.unsafe_operation: %s' % (clsname, ast.unparse(st)[:60]))
+    body = block(list(fn[0].body), {'value1': 'value1', 'value2': 'value2'}, 2)
+    return '/-- %s -/\ndef %s (value1 value2 : Int) : Option Int :=\n  %s\n\n' % (doc, leanname, body)
 
 
 # ---- C01: the actions of RDD as compositions over the list of partitions ---------------------------------
